@@ -66,7 +66,7 @@ def gen_assign(rng):
         n = rng.choice(sel) if sel else 3          # the length of some selected molecule, not necessarily the first
     else:
         n = rng.randint(0, 8)
-    return {'kind': 'assign', 'ms': ms, 'seq': [rng.randint(1, 9) * 10 + i for i in range(n)]}
+    return {'kind': 'assign', 'ms': ms, 'seq': [rng.randint(1, 9) * 10 + i for i in range(n)], 'warm': rng.random() < 0.35}
 
 
 def gen_dssp(rng):
@@ -111,6 +111,20 @@ def run_impl(inp):
             mol.add_node(k, chain='A', resid=r, resname='R%d' % (r % 3), insertion_code='', atomname='X')
         system.add_molecule(mol)
     proc = AnnotateResidues('tag', list(inp['seq']), molecule_selector=lambda mol: mol.meta['flag'])
+    if inp.get('warm'):
+        # the processor object has been used before, on a system of another shape (two selected molecules with as many
+        # residues as the sequence is long, which always succeeds): what it does here may not depend on that
+        other = vermouth.system.System()
+        for j in range(2):          # two molecules as long as the sequence: the sequence is repeated for each of them
+            mol = vermouth.molecule.Molecule()
+            mol.meta['flag'] = True
+            for i in range(max(1, len(inp['seq']))):
+                mol.add_node(i, chain='Z', resid=900 + i, resname='W', insertion_code='', atomname='X')
+            other.add_molecule(mol)
+        try:
+            proc.run_system(other)
+        except ValueError:
+            pass
     try:
         proc.run_system(system)
     except ValueError:
